@@ -9,9 +9,9 @@ def _payload(data):
     return out
 
 
-def replay_reads(FL, reads):
+def replay_reads(FL, reads, data=None):
     from cardutil import mciipm
-    data = ref.content(FL)
+    data = ref.content(FL) if data is None else data
     P = _payload(data)
     u = mciipm.Unblock1014(io.BytesIO(data))
     pos = 0
